@@ -297,6 +297,13 @@ def run(pid, tier, seed, replay, t0):
         model_requests=drv.requests,
         repo=str(core.REPO),
     )
+    try:
+        from . import form_util as _FU
+        if sum(_FU.ORDER_STATS.values()):
+            # how often the implementation numbered its variables as the model does / differently (then compared through the relabelling)
+            cov["variable_numbering_vs_model"] = dict(_FU.ORDER_STATS)
+    except Exception:  # noqa
+        pass
     if tier == "thorough" and exhaustive_scope and not stats["features"].get("stopped_by_time_budget"):
         cov["exhaustive"] = True
         cov["exhaustive_scope"] = exhaustive_scope
